@@ -3115,12 +3115,21 @@ func backoffDelay(faults int64, initialDelay, maxDelay time.Duration) time.Durat
 		return 0
 	}
 
-	// time.Duration is an int64 nanosecond count, so 62 doublings of even the
-	// smallest positive delay (1ns << 62 ≈ 146 years) exceed any sane maxDelay
-	// and one more doubling overflows int64. Cap early rather than rely on the
-	// wraparound check below.
+	// time.Duration is an int64 nanosecond count, so 63 doublings of even the
+	// smallest positive delay overflow int64 (1ns << 62 ≈ 146 years is the
+	// largest representable product). Cap early rather than rely on the
+	// checks below.
 	shift := faults - 1
-	if shift >= 62 {
+	if shift >= 63 {
+		return maxDelay
+	}
+
+	// initialDelay << shift exceeds maxDelay exactly when initialDelay exceeds
+	// maxDelay >> shift. Deciding it on the un-shifted side avoids the
+	// overflow altogether: a wrapped product is not always negative or huge, it
+	// can also be a small positive value (e.g. (1<<40+1)ns << 24 == 16.7ms)
+	// that the check below would accept
+	if initialDelay > maxDelay>>uint(shift) {
 		return maxDelay
 	}
 
